@@ -1110,8 +1110,98 @@ func c09AdjCache(w *W) {
 					}
 				}
 			}
+			// objects that outlive a change of the hidden state: the receiver is built on the pristine state, the cache is
+			// then primed with a neighbouring year, and only then is the object used (navigation, conversion, accessors)
+			type ocall struct {
+				name string
+				mk   func() interface{}
+				use  func(o interface{}) string
+			}
+			var ocalls []ocall
+			for m := -12; m <= 12; m++ {
+				if m == 0 {
+					continue
+				}
+				mm := m
+				// one navigation or accessor per history: a second call in the same history would already see the hidden
+				// state left by the first
+				for _, n := range []int{1, -1, 2, -2, 12, -12, 0} {
+					n := n
+					ocalls = append(ocalls, ocall{fmt.Sprintf("m := NewLunarMonthFromYm(%d,%d); ...; m.Next(%d)", y, m, n),
+						func() interface{} { return calendar.NewLunarMonthFromYm(yy, mm) },
+						func(o interface{}) string {
+							lm := o.(*calendar.LunarMonth)
+							if lm == nil {
+								return "nil"
+							}
+							if n == 0 {
+								return lm.GetGanZhi() + lm.GetNineStar().String() + lm.String()
+							}
+							r := lm.Next(n)
+							if r == nil {
+								return "nil"
+							}
+							return monthDigest(r) + " " + r.GetGanZhi()
+						}})
+				}
+				for _, n := range []int{1, -1, -30, 30, 0} {
+					n := n
+					ocalls = append(ocalls, ocall{fmt.Sprintf("l := NewLunarFromYmd(%d,%d,1); ...; l.Next(%d)", y, m, n),
+						func() interface{} {
+							var l *calendar.Lunar
+							try(func() { l = calendar.NewLunarFromYmd(yy, mm, 1) })
+							return l
+						},
+						func(o interface{}) string {
+							l := o.(*calendar.Lunar)
+							if l == nil {
+								return "nil"
+							}
+							if n == 0 {
+								return l.GetSolar().ToYmdHms() + " " + l.ToFullString()
+							}
+							return fieldDigest(l.Next(n))
+						}})
+				}
+			}
+			orefs := make([]string, len(ocalls))
+			obody := func(prime int, out []string) func(t *thr) {
+				return func(t *thr) {
+					for i, c := range ocalls {
+						calendar.CACHE_YEAR = nil
+						var obj interface{}
+						safeDigest(func() string { obj = c.mk(); return "" })
+						if prime != 0 {
+							safeDigest(func() string { calendar.NewLunarYear(yy + prime); return "" })
+						}
+						out[i] = safeDigest(func() string { return c.use(obj) })
+					}
+				}
+			}
+			if xo := runSchedule(nil, []func(*thr){obody(0, orefs)}, nil, nil, resetHidden); xo.deadlock {
+				w.Viol(fmt.Sprintf("C09:adjcache:blocked:%d", y), "calls for one year left the library blocked", y)
+				continue
+			}
+			for _, prime := range []int{-1, 1, 2} {
+				if y+prime < 1 || y+prime > 9999 {
+					continue
+				}
+				got := make([]string, len(ocalls))
+				if xo := runSchedule(nil, []func(*thr){obody(prime, got)}, nil, nil, resetHidden); xo.deadlock {
+					w.Viol(fmt.Sprintf("C09:adjcache:blocked:%d", y), "calls for one year left the library blocked", y)
+					continue
+				}
+				for i := range ocalls {
+					w.R.Transitions++
+					w.R.Evals++
+					if got[i] != orefs[i] {
+						w.R.Nontrivial++
+						w.Viol(fmt.Sprintf("C09:history:object-then-NewLunarYear(Y%+d):%s", prime, ocalls[i].name), fmt.Sprintf("an object built first and used after a call for lunar year %d answers differently than without that call: %s: %s", y+prime, ocalls[i].name, firstDiffWords(got[i], orefs[i])), []string{ocalls[i].name, fmt.Sprintf("NewLunarYear(%d)", y+prime)})
+					}
+				}
+			}
 			if y%97 == 24 {
-				w.Sample(map[string]interface{}{"year": y, "calls": len(calls), "cache_primed_with": []int{y - 1, y + 1, y + 2}})
+				w.Sample(map[string]interface{}{"year": y, "calls": len(calls), "object_calls": len(ocalls), "cache_primed_with": []int{y - 1, y + 1, y + 2}})
 			}
 		}
 	}
